@@ -367,14 +367,20 @@ def r95(db, ctx):
     # --- CountMatrix::from_sequences
     f = db.fn('lightmotif::pwm::CountMatrix::from_sequences')
     R = X.Rec(f)
+    from lm import iteralg as IA
+    CA = IA.Canon(f, R)
     incs = [s for s in X.stores(f, R) if norm(s['value'])[0] == 'bin' and norm(s['value'])[1] == 'Add']
     okc = False
     if len(incs) == 1:
         s = incs[0]
-        tgt, val = norm(s['target']), norm(s['value'])
-        b = m(('idx', ('call~', 'index_mut', ('$d', ('fld', ('elem', ('call~', 'enumerate', ('$seq',)), '$L'), '0'))),
-               ('call~', 'as_index', (('fld', ('elem', ('call~', 'enumerate', ('$seq',)), '$L'), '1'),))), tgt)
-        if b and val == ('bin', 'Add', tgt, ('k', 1)):
+        tgt, val = CA.canon(s['target']), CA.canon(s['value'])
+        # d[k][seq[k].as_index()] += 1 for every position k of the sequence (enumerate, zip of rows and symbols, or an index loop)
+        b = m(('at', ('at', '$d', '$k'), ('call~', 'as_index', (('at', '$seq', '$k2'),))), tgt)
+        ext = CA.extents.get(b['$k'][1]) if b is not None and IA.is_pos(b['$k']) else None
+        cover = bool(ext) and ('len', b['$seq']) in ext and all(c_ == ('len', b['$seq']) or c_ == ('rows', b['$d']) for c_ in ext) if b is not None else False
+        if not cover and ext and b is not None and len(ext) == 1 and ext[0][0] == 'sub' and ext[0][2] == ('k', 0) and common.is_len_of(ext[0][1], b['$seq']):
+            cover = True
+        if b is not None and b['$k'] == b['$k2'] and cover and val == ('bin', 'Add', tgt, ('k', 1)):
             okc = True
             ctx.ok('R9.6', f, 'd[i][x.as_index()] += 1 for (i, x) in enumerate(seq)', ['row = position, column = symbol'])
             rels = G.relations(f, R, s['block'])
@@ -395,53 +401,65 @@ def r95(db, ctx):
     if not okc:
         ctx.fail('R9.6', f, 'count increment', f'reason=unrecognised-shape: expected exactly one `d[i][x.as_index()] += 1`, found {[X.show(s["target"], 100) for s in incs]}')
     # --- Background::new
+    from lm import reduce as RD
     f = db.fn('lightmotif::abc::Background::new')
     R = X.Rec(f)
+    C = RD.RCanon(db, f, R)
     oks = ok_constructions(f)
     if not oks:
         ctx.fail('R9.5', f, 'Ok construction', 'reason=anchor-missing')
+    freqs = ('p', 1)
     for bi in oks:
-        rels = G.relations(f, R, bi)
-        has_sum = G.holds(rels, 'eq', lambda e: e[0] == 'v', lambda e: norm(e) == ('k', 1.0))
+        # (a) Ok only when the sum of *all* frequencies is exactly 1.0
+        has_sum = False
+        for r in G.relations(f, R, bi):
+            if r[0] != 'eq':
+                continue
+            for a_, b_ in ((r[1], r[2]), (r[2], r[1])):
+                if norm(b_) != ('k', 1.0):
+                    continue
+                red = RD.sum_view(db, f, R, C, a_, bi)
+                if red is not None and red['op'] == 'add' and norm(red['init']) == ('k', 0.0) and red['term'] == ('at', freqs, ('pos', red['L'])) and red['extents'] == [('len', freqs)]:
+                    has_sum = True
         if has_sum:
             n += 1
             ctx.ok('R9.5', f, 'Ok(Background) dominated by sum == 1.0')
         else:
             ctx.fail('R9.5', f, 'sum check', 'Ok(Background{..}) is not dominated by the test sum == 1.0')
-    # range test inside the loop: contains(&(0.0..=1.0), &f) false -> return Err
-    rng_ok = False
-    for bi, t in f.calls():
-        if (f.callee_short(t) or '').endswith('RangeInclusive::contains'):
-            a0 = norm(R.operand(t['args'][0]))
-            for x in list(X.walk(a0)):
-                if x[0] == 'promoted':
-                    pe = common.promoted_expr(db, x[1], x[2])
-                    if pe is not None:
-                        a0 = norm(pe)
-            lohi = [x for x in X.walk(a0) if x[0] == 'k']
-            tb = t.get('target')
-            sw = f.term(tb) if tb is not None else None
-            if sw and sw['k'] == 'switch':
-                false_t = [tg for v, tg in sw['arms'] if int(v) == 0]
-                if false_t and returns_err(f, false_t[0]) and [x[1] for x in lohi] == [0.0, 1.0]:
+        # (b) Ok only when every frequency lies in 0.0..=1.0 (a validating loop, all(..), or !any(!..))
+        rng_ok = False
+        facts = RD.forall_facts(db, f, R, C, bi)
+        lo_ok, hi_ok = set(), set()
+        for fact in facts:
+            if len(fact['pos']) != 1:
+                continue
+            L = next(iter(fact['pos']))
+            if fact['extents'].get(L) != [('len', freqs)]:
+                continue
+            x = ('at', freqs, ('pos', L))
+            rel = fact['rel']
+            if rel[0] == 'true' and rel[1][0] == 'call' and rel[1][1].endswith('RangeInclusive::contains') and len(rel[1][2]) == 2 and rel[1][2][1] == x:
+                a0 = rel[1][2][0]
+                for y in list(X.walk(a0)):
+                    if y[0] == 'promoted':
+                        pe = common.promoted_expr(db, y[1], y[2])
+                        if pe is not None:
+                            a0 = norm(pe)
+                if [y[1] for y in X.walk(a0) if y[0] == 'k'] == [0.0, 1.0]:
                     rng_ok = True
-    if not rng_ok:
-        # the same test spelled with comparisons: the block that accumulates the frequency into the sum is only reached under 0 <= f and f <= 1
-        for bi, blk in enumerate(f.blocks):
-            for st in blk['stmts']:
-                if st['k'] == 'assign' and st['rv']['k'] == 'bin' and st['rv']['op'] == 'Add' and st['rv'].get('ty') == 'f32':
-                    fe = norm(R.operand(st['rv']['b']))
-                    rels = G.relations(f, R, bi)
-                    lo = G.holds(rels, 'ge', lambda e: norm(e) == fe, lambda e: norm(e) == ('k', 0.0))
-                    hi = G.holds(rels, 'le', lambda e: norm(e) == fe, lambda e: norm(e) == ('k', 1.0))
-                    # the excluded side must return Err: every exit not dominated by this block's loop continuation is an Err
-                    if lo and hi and all(returns_err(f, tg) for r_ in (lo, hi) for tg in f.succs(r_[3]) if not f.dominates(tg, bi) and tg != bi and not f.reaches(tg, bi)):
-                        rng_ok = True
-    if rng_ok:
-        n += 1
-        ctx.ok('R9.5', f, 'each frequency outside 0.0..=1.0 returns Err')
-    else:
-        ctx.fail('R9.5', f, 'range check', 'no `(0.0..=1.0).contains(&f)` test whose failing side returns Err')
+            if rel[0] in ('ge', 'le') and len(rel) >= 3:
+                a_, b_ = rel[1], rel[2]
+                if (rel[0] == 'ge' and a_ == x and norm(b_) == ('k', 0.0)) or (rel[0] == 'le' and norm(a_) == ('k', 0.0) and b_ == x):
+                    lo_ok.add(L)
+                if (rel[0] == 'le' and a_ == x and norm(b_) == ('k', 1.0)) or (rel[0] == 'ge' and norm(a_) == ('k', 1.0) and b_ == x):
+                    hi_ok.add(L)
+        if lo_ok & hi_ok:
+            rng_ok = True
+        if rng_ok:
+            n += 1
+            ctx.ok('R9.5', f, 'each frequency outside 0.0..=1.0 returns Err')
+        else:
+            ctx.fail('R9.5', f, 'range check', 'Ok(Background{..}) is not reached only when every frequency lies in 0.0..=1.0')
     # --- Background::from_counts: total == 0 -> Err
     f = db.fn('lightmotif::abc::Background::from_counts')
     R = X.Rec(f)
@@ -554,28 +572,51 @@ def r97(db, ctx):
         ctx.fail('R9.7', 'lightmotif::abc::Background::from_counts', 'from_counts', 'reason=anchor-missing')
         return
     R = X.Rec(f)
-    st = [s_ for s_ in X.stores(f, R) if norm(s_['target'])[0] == 'idx']
+    from lm import reduce as RD, iteralg as IA
+    RC = RD.RCanon(db, f, R)
+    st = [s_ for s_ in X.stores(f, R) if RC.canon(s_['target'])[0] == 'at']
     probs = []
     if len(st) != 1:
         probs.append(f'reason=unrecognised-shape: {len(st)} indexed stores, expected one')
     else:
-        tg, v = norm(st[0]['target']), norm(st[0]['value'])
+        tg, v = RC.canon(st[0]['target']), RC.canon(st[0]['value'])
         I = tg[2]
-        b = m(('bin', 'Div', ('cast', ('idx', ('p', 1), '$j'), '_', 'IntToFloat'), ('cast', '$tot', '_', 'IntToFloat')), v)
+        b = m(('bin', 'Div', ('cast', ('at', ('p', 1), '$j'), '_', 'IntToFloat'), ('cast', '$tot', '_', 'IntToFloat')), v)
         if b is None:
             probs.append(f'stored value is {X.show(v, 120)}, expected counts[i] as f32 / total as f32')
         else:
             if b['$j'] != I:
                 probs.append(f'frequencies[{X.show(I, 40)}] is computed from counts[{X.show(b["$j"], 40)}]')
-            if m(('call~', 'Iterator::sum', (('call~', 'slice::iter', (('p', 1),)),)), b['$tot']) is None:
-                probs.append(f'total is {X.show(b["$tot"], 80)}, expected counts.iter().sum() over all K counts')
+            # total = Σ counts over all K counts: sum / fold / map chain, or an accumulator loop
+            tot = b['$tot']
+            red = RD.of_expr(RC, tot)
+            if red is None and tot[0] == 'v':
+                ls = [l_ for l_ in RD.loops_in(db, f, R, RC) if l_['local'] == tot[1] and l_['every_iteration'] and l_['single_exit'] and l_['nested'] == 1]
+                if len(ls) == 1:
+                    red = dict(ls[0])
+                    ids = RD.pos_ids(red['term'])
+                    red['L'] = next(iter(ids)) if len(ids) == 1 else None
+                    red['extents'] = RC.extents.get(red['L'])
+            okt = red is not None and red['op'] == 'add' and norm(red['init']) == ('k', 0) and red['term'] == ('at', ('p', 1), ('pos', red['L'])) \
+                and red['extents'] in ([('len', ('p', 1))],) 
+            if not okt and red is not None and red['op'] == 'add' and red['term'] == ('at', ('p', 1), ('pos', red['L'])) and red['extents'] and len(red['extents']) == 1 \
+                    and red['extents'][0][0] == 'sub' and red['extents'][0][2] == ('k', 0) and (common.is_usize_const(red['extents'][0][1], 'K') or common.is_len_of(red['extents'][0][1], ('p', 1))):
+                okt = True
+            if not okt:
+                probs.append(f'total is {X.show(tot, 80)}, expected the sum of all K counts')
         # coverage of the index
         cov = False
-        mi = m(('call~', 'Symbol::as_index', (('elem', ('call~', 'Alphabet::symbols', ()), '$L'),)), I)
-        if mi is not None:
-            cov = True          # every symbol of the alphabet (R5.1: symbols() enumerates all K symbols, as_index is a bijection onto 0..K)
-        elif I[0] == 'elem' and I[1][0] == 'agg' and len(I[1][2]) == 2 and norm(I[1][2][0]) == ('k', 0) and common.is_usize_const(I[1][2][1], 'K'):
-            cov = True
+        mi = m(('call~', 'Symbol::as_index', (('at', ('call~', 'Alphabet::symbols', ()), '$p'),)), I)
+        if mi is not None and IA.is_pos(mi['$p']):
+            e_ = RC.extents.get(mi['$p'][1])
+            cov = bool(e_) and len(e_) == 1 and e_[0][0] == 'len' and common.is_call_to(e_[0][1], 'Alphabet::symbols')
+            # every symbol of the alphabet (R5.1: symbols() enumerates all K symbols, as_index is a bijection onto 0..K)
+        elif IA.is_pos(I):
+            e_ = RC.extents.get(I[1])
+            if e_ and len(e_) >= 1:
+                full = lambda c_: (c_[0] == 'sub' and c_[2] == ('k', 0) and (common.is_usize_const(c_[1], 'K') or common.is_len_of(c_[1], ('p', 1)) or common.is_len_of(c_[1], tg[1]))) \
+                    or (c_[0] == 'len' and c_[1] in (('p', 1), tg[1]))
+                cov = all(full(c_) for c_ in e_)          # counts and frequencies are both GenericArray<_, K>
         if not cov:
             probs.append(f'the index {X.show(I, 80)} does not range over all K symbol indices (symbols() or 0..K::USIZE): the skipped symbols keep frequency 0 '
                          'and the frequencies no longer sum to one')
